@@ -89,7 +89,8 @@ Section Tree.
 
   (* ---------- specification hash ---------- *)
   Variable H : digest -> digest -> digest.
-  Fixpoint zh (d : nat) : digest := match d with O => 0 | S d' => H (zh d') (zh d') end.
+  (* `let` so that the extracted code evaluates the recursive call once *)
+  Fixpoint zh (d : nat) : digest := match d with O => 0 | S d' => let z := zh d' in H z z end.
 
   (* bits per packed value: 256 / packing factor *)
   Definition vbits : N := 256 / pf_of ek.
